@@ -231,6 +231,9 @@ def definitions(draw, version, used):
         content = draw(subtree(version, used, 1, False, False, 1, 3))
         if takes:
             cands = [v for v in pl.valued if v.long not in used]
+            named = [v for v in cands if pl.m.node_value_classes(v) == ["nameClass"] and not pl.m.node_unit_classes(v)]
+            if named and draw(st.booleans()):
+                cands = named           # half of the placeholders sit on nodes whose values are names (text rules apply)
             node = cands[draw(st.integers(0, len(cands) - 1))]
             used.add(node.long)
             content.insert(draw(st.integers(0, len(content))),
